@@ -21,8 +21,14 @@ RULE = ('cases = space group (22 groups over the triclinic, monoclinic, orthorho
         '(incl. next to cell faces so that symmetry images fall outside [0,1)) x positions on the 1/1024 grid placed around the symmetry images, across faces '
         'and at random x radius below half the smallest perpendicular width x integer supercells; cases with a distance within 1e-9 of the radius are '
         'excluded and counted; non-trivial = at least one symmetry image outside [0,1) contributes a point. Hexagonal cells are exact integer matrices in a rotated frame (a = (s,-s,0), b = (0,s,-s), c = (t,t,t))')
-TRUSTED = ['pymatgen symmetry tables are imported per case (metric preservation and inverses are checked in Coq); Lattice.get_all_distances replaced by the exact search']
+TRUSTED = ['translator unit shapeloop (AST of ShapeAnalyzer.find_equivalent_positions -> Gen/ShapeLoop.v)',
+           'pymatgen symmetry tables are imported per case (metric preservation and inverses are checked in Coq); Lattice.get_all_distances replaced by the exact search']
 ASSUMPTIONS = ['radius <= half the smallest perpendicular width (hypothesis of the property)']
+
+
+def pre_build():
+    import translate
+    return [translate.gen_shape_loop()]
 
 
 def _lattice(rng, system):
